@@ -313,11 +313,9 @@ func checkRules(files []*File) ruleSet {
 			ck := &checker{rules: rules, tmpls: tmpls, params: top, shadow: map[string]bool{}}
 			ck.block(t.Body, top)
 			for _, b := range top.vars {
-				if !b.used && b.viaAll && ck.shadow[b.name] {
-					// passed on by data="all" only, while a let/loop variable of the same name
-					// exists: whether that counts as a use of the param is ambiguous; not generated.
-					rules["ambiguous-param-use"] = true
-				} else if !b.used && !b.viaAll {
+				// a param handed on by data="all" is used, also where a let or loop variable of the same
+				// name is in scope at the call (data="all" passes the params, never the locals).
+				if !b.used && !b.viaAll {
 					rules["unused-param"] = true
 				}
 			}
